@@ -99,6 +99,18 @@ AltSizes == {<<2, 2>>, <<3, 2>>}
 AltFills == {<<>>, Labelled(4, 2), <<65, 65, 65, 65, 65>>}
 AltResizes(t) == {<<c, r>> \in {<<2, 2>>, <<2, 4>>, <<3, 3>>, <<1, 2>>, <<3, 1>>} : <<c, r>> # <<t.cols, t.rows>>}
 
+\* ------------------------------------------------- C02/C17: saved contexts x screens x resizes
+CtxAlphabet(t) ==
+     {F2("Cup", t.rows, t.cols), F2("Cup", 1, 1), F0("Decsc"), F0("Decrc"), F1("Print", 97), FS("Sgr", <<<<1, 0>>>>)}
+  \cup {FS(f, <<m>>) : f \in {"Decset", "Decrst"}, m \in {6, 7, 1047, 1048, 1049}}
+  \cup {F2("Decstbm", 2, t.rows), F0("Decstr")}
+CtxSizes == {<<3, 3>>}
+CtxLeanAlphabet(t) ==
+     {F2("Cup", t.rows, t.cols), F0("Decsc"), F0("Decrc"), F1("Print", 97)}
+  \cup {FS(f, <<m>>) : f \in {"Decset", "Decrst"}, m \in {1047, 1049}}
+CtxLeanResizes(t) == {<<c, r>> \in {<<2, 2>>, <<4, 5>>} : <<c, r>> # <<t.cols, t.rows>>}
+CtxResizes(t) == {<<c, r>> \in {<<1, 1>>, <<2, 2>>, <<3, 3>>, <<4, 5>>} : <<c, r>> # <<t.cols, t.rows>>}
+
 \* ------------------------------------------------------------- C10: reflow
 ReflowAlphabet(t) ==
      {F1("Print", c) : c \in {97, 32}} \cup {F0("Cr"), F0("Lf"), F1("El", 0), F1("El", 1), F1("Ech", 1), F1("Dch", 1)}
